@@ -3,6 +3,7 @@ package main
 
 import (
 	"fmt"
+	"regexp"
 	"strings"
 
 	"deps.dev/util/semver"
@@ -62,12 +63,84 @@ func recheck(oracle string, ops, res []string) (bool, string) {
 	return false, ""
 }
 
+var nuget4zero = regexp.MustCompile(`[0-9]+\.[0-9]+\.[0-9]+\.0([-:\]\),}]|$)`)
+
+// classify: F-C11-satmin = negation of Props.C11.FiniteLowerBounds: some span's lower bound
+// (or a unit span) has an ∞ component (only reachable through `>` on a number equal to
+// infinity-1, whose successor saturates).
+func classify(oracle string, ops, res []string) string {
+	f := strings.Fields(ops[0])
+	if len(f) < 4 {
+		return ""
+	}
+	cc, err := semverops.SysNames[f[2]].ParseConstraint(fw.Unhx(f[3]))
+	if err != nil {
+		return ""
+	}
+	set := cc.Set().String()
+	if f[2] == "NuGet" && nuget4zero.MatchString(set) {
+		return "F-C11-nuget4zero" // negation of Props.C11.NoZeroFourth
+	}
+	for _, part := range strings.Split(strings.Trim(set, "{}"), ",") {
+		lo := part
+		if i := strings.Index(part, ":"); i >= 0 {
+			lo = part[:i]
+		}
+		if strings.Contains(lo, "∞") {
+			return "F-C11-satmin"
+		}
+	}
+	return ""
+}
+
 func run(c *fw.Ctx) {
 	n := c.N(1500, 60000)
 	for _, sys := range systems {
 		pool := semverops.ProbeVersions(sys)
 		for it := 0; it < n; it++ {
 			C := semverops.GenConstraint(c.Rng, sys)
+			if it%3 == 1 && (sys == semver.NPM || sys == semver.DefaultSystem) {
+				// alternatives over a small shared operand pool: spans with equal lower bounds,
+				// prerelease upper bounds, absorbed and unmergeable neighbours
+				semverops.OperandPool = []string{semverops.GenCVersion(c.Rng, sys), semverops.GenCVersion(c.Rng, sys), semverops.GenCVersion(c.Rng, sys), semverops.GenCVersion(c.Rng, sys)}
+				parts := []string{}
+				for k := 0; k < 3+c.Rng.Intn(2); k++ {
+					parts = append(parts, semverops.GenConstraint(c.Rng, sys))
+				}
+				semverops.OperandPool = nil
+				C = strings.Join(parts, " || ")
+			}
+			if it%7 == 2 && (sys == semver.NPM || sys == semver.DefaultSystem) {
+				// family: several alternatives starting at the same version, with plain and prerelease
+				// upper bounds, plus an open-ended alternative that absorbs some of them
+				v := func() string { return fmt.Sprintf("%d.%d.%d", c.Rng.Intn(3), c.Rng.Intn(3), c.Rng.Intn(3)) }
+				lo := v()
+				iv := func(lo, hi string) string {
+					switch c.Rng.Intn(3) {
+					case 0:
+						return lo + " - " + hi
+					case 1:
+						return ">=" + lo + " <=" + hi
+					}
+					return ">=" + lo + " <" + hi
+				}
+				parts := []string{iv(lo, v()), iv(lo, v()+semverops.Pick(c.Rng, "-rc", "-a", "-0", "")), semverops.Pick(c.Rng, ">=", ">", "^", "~") + v()}
+				if c.Rng.Intn(2) == 0 {
+					parts = append(parts, iv(v(), v()+semverops.Pick(c.Rng, "-rc", "")))
+				}
+				c.Rng.Shuffle(len(parts), func(i, j int) { parts[i], parts[j] = parts[j], parts[i] })
+				C = strings.Join(parts, " || ")
+			}
+			if sys == semver.NuGet && it%23 == 0 {
+				C = semverops.Pick(c.Rng, "1.2.3.*", "[1.2.3.*, )", "[1.2.3.*, 2.0.0.*)", "1.0.0.*", "(1.0.0.0, 2.0.0.1]", "[1.2.3.0]")
+			}
+			if it%97 == 0 {
+				// numbers next to the library's infinity (2^63-1): successor saturation
+				C = semverops.Pick(c.Rng, ">", ">=", "<", "^", "~") + semverops.Pick(c.Rng, "0.0.", "1.2.", "0.", "") + semverops.Pick(c.Rng, "9223372036854775806", "9223372036854775805")
+				if sys == semver.Go {
+					C = "v1.2." + semverops.Pick(c.Rng, "9223372036854775806", "9223372036854775805")
+				}
+			}
 			i0, r0 := c.Opf("C11 cparse %s %s", sys, fw.Hx(C))
 			c.Count(sys.String() + ":" + strings.Fields(r0)[0])
 			if !strings.HasPrefix(r0, "ok") {
@@ -113,7 +186,7 @@ func main() {
 	fw.Main(&fw.Prop{
 		ID:   "C11",
 		Rule: "per system (Default, NPM, Cargo, Go, NuGet): random constraints from the grammar; Set().String() is parsed with ParseSetConstraint, must print identically, and must agree with the original under MatchVersionPrerelease on every span bound, its prerelease/release neighbours and random pool versions. Distinct non-trivial = distinct (system, set text).",
-		Exec: exec, Run: run, Recheck: recheck,
+		Exec: exec, Run: run, Recheck: recheck, Classify: classify,
 		Gens: semvergen.Generators(),
 	})
 }
